@@ -95,6 +95,7 @@ func init() {
 
 func runC19(w *W) {
 	perturbCache = true
+	walkLunar = true
 	// table uniqueness (parser is a function)
 	for _, tb := range [][]string{LunarUtil.NUMBER[:10], LunarUtil.MONTH[1:], LunarUtil.DAY[1:]} {
 		seen := map[string]bool{}
@@ -135,7 +136,13 @@ func runC19(w *W) {
 		if d.Y > 9998 {
 			return
 		}
-		l := d.L()
+		// the lunar object is taken at a rotating time of day (late-rat hour included), by a rotating route and with the
+		// eight-character convention switched to 1 on every second day (lunarP): the printed date is that of its fields
+		tt := []hms{{23, 30, 0}, {12, 0, 0}, {0, 0, 0}}[(d.J/2)%3]
+		if d.J%4 == 3 {
+			tt = hms{0, 0, 0}
+		}
+		l := lunarP(d.At(tt.h, tt.m, tt.s), d.J)
 		if y, m, dd, ok := r6Parse(l.String()); !ok || y != l.GetYear() || m != l.GetMonth() || dd != l.GetDay() {
 			w.Viol("C19:Lunar.String:"+d.Ymd, fmt.Sprintf("%q parses to (%d,%d,%d,%v), lunar date is %s", l.String(), y, m, dd, ok, lunarYmd(l)), d.Ymd)
 		}
